@@ -30,6 +30,8 @@ type c12Scenario struct {
 	Tree    []int   `json:"tree,omitempty"` // parent index of actor i (actor 0 is the root, parent -1)
 	Senders [][]int `json:"senders"`        // per sender: target mailbox index of each item
 	Yields  int     `json:"yields_in_work"`
+	Early   bool    `json:"close_while_senders_active"`
+	EarlyD  int     `json:"close_delay_yields,omitempty"`
 
 	probes    map[string]int
 	h         *Hist
@@ -37,6 +39,7 @@ type c12Scenario struct {
 	extra     []Violation
 	hung      bool
 	closeRet  uint64
+	closeInv  uint64
 	nMailbox  int
 	interleav bool
 }
@@ -90,6 +93,12 @@ func genC12(t *simrt.Tape, tier string) Scenario {
 		sc.Senders = append(sc.Senders, it)
 	}
 	sc.Yields = t.Choose(3)
+	if t.Bool(1, 3) {
+		// Close while senders are still active / a backlog is buffered: everything whose Post/Send
+		// returned before Close was invoked must still be processed exactly once
+		sc.Early = true
+		sc.EarlyD = t.Choose(16)
+	}
 	return sc
 }
 
@@ -209,14 +218,31 @@ func (sc *c12Scenario) Run(s *simrt.Sim) {
 			}
 		}))
 	}
-	allProcessed := func() bool {
-		for _, th := range ths {
-			if !th.Done() {
-				return false
+	sendersDone := allDone(ths)
+	doClose := func(who string) {
+		op := h.Do(who, "Close", nil, func() (interface{}, error) { closeAll(); return nil, nil })
+		sc.closeInv, sc.closeRet = op.Inv, op.Ret
+	}
+	if sc.Early {
+		s.Go("closer", func() {
+			for i := 0; i < sc.EarlyD; i++ {
+				s.YieldHard()
 			}
+			doClose("closer")
+		})
+	}
+	mustRun := func(it *c12Item) bool {
+		if !sc.Early {
+			return true
+		}
+		return it.sub != nil && it.sub.Returned && sc.closeInv != 0 && it.sub.Ret < sc.closeInv
+	}
+	allProcessed := func() bool {
+		if !sendersDone() || (sc.Early && sc.closeRet == 0) {
+			return false
 		}
 		for _, it := range sc.items[:nNormal] {
-			if len(it.ends) == 0 {
+			if mustRun(it) && len(it.ends) == 0 {
 				return false
 			}
 		}
@@ -229,10 +255,8 @@ func (sc *c12Scenario) Run(s *simrt.Sim) {
 		}
 	}
 	s.SetFair(true)
-	op := h.Do("main", "Close", nil, func() (interface{}, error) { closeAll(); return nil, nil })
-	sc.closeRet = op.Ret
-	if op.Panic != "" {
-		sc.extra = append(sc.extra, Violation{Clause: "call-panic", Fingerprint: op.Panic + " in Close", Detail: op.String()})
+	if !sc.Early {
+		doClose("main")
 	}
 	for mb := 0; mb < sc.nMailbox; mb++ {
 		submit("main", sc.items[lateBase+mb])
@@ -279,9 +303,25 @@ func (sc *c12Scenario) Check(res *simrt.Result) []Violation {
 			}
 			continue
 		}
+		must := true
+		if sc.Early {
+			must = it.sub != nil && it.sub.Returned && sc.closeInv != 0 && it.sub.Ret < sc.closeInv
+			if it.sub != nil && sc.closeRet != 0 && it.sub.Inv > sc.closeRet && len(it.begins) > 0 {
+				add("ran-after-close", "item-submitted-after-close-ran", desc(it)+": submitted after Close returned")
+			}
+			if must {
+				sc.probes["accepted-before-early-close"]++
+			}
+		}
 		switch {
+		case len(it.begins) == 0 && !must:
+			// submitted while or after the mailbox was being closed: may be dropped
 		case len(it.begins) == 0:
-			add("exactly-once", "never-processed", desc(it)+": never processed within the fair settle horizon")
+			why := "never processed within the fair settle horizon"
+			if sc.Early {
+				why = "its Post/Send had returned before Close was invoked, but it was never processed (backlog dropped at Close?)"
+			}
+			add("exactly-once", "never-processed", desc(it)+": "+why)
 		case len(it.begins) > 1:
 			add("exactly-once", "processed-twice", desc(it))
 		case len(it.ends) == 0:
